@@ -48,8 +48,9 @@ fn main() {
                 if nlex > 0 { return format!("lex_errors={} parse_errors=-", nlex); }
                 let tree = penne::delta::parser::parse(&tokens);
                 let npar = tree.errors(&tokens).map(|e| e.errors.len()).unwrap_or(0);
+                if npar > 0 { return format!("lex_errors=0 parse_errors={} nodes={}", npar, tree.num_parse_nodes()); }
                 let hdr = tree.build_header();
-                format!("lex_errors=0 parse_errors={} nodes={} header_nodes={} header_decls={}", npar, tree.num_parse_nodes(), hdr.num_parse_nodes(), hdr.num_declarations())
+                format!("lex_errors=0 parse_errors=0 nodes={} header_nodes={} header_decls={}", tree.num_parse_nodes(), hdr.num_parse_nodes(), hdr.num_declarations())
             }
             _ => "unknown-mode".to_string(),
         }
